@@ -958,6 +958,7 @@ def kernel_checks(rep, H, tier):
 
 
     datetime_kernel_checks(rep, H, tier)
+    time_truncation_lemma(rep)
 
 
 def glue_check(rep, H, tier):
@@ -1019,6 +1020,49 @@ def glue_check(rep, H, tier):
     finally:
         if saved is not None:
             g[name] = saved
+
+
+def time_truncation_lemma(rep):
+    """int(raw * 0.0001) == raw // 10000 for every 32-bit TIME raw value inside the database range: the binary64 product
+    never lands on the wrong side of a whole second.  z3 and cvc5 do not decide the bit-precise statement (nor the
+    one-query rounding-model statement) within 280 s, so it is discharged as a chain of three small obligations over
+    the two facts the rounding-error model rests on, for r = fl(x*c), c = binary64(0.0001), x < 2^53 (exactly representable):
+      (M1) |r - e| <= 2^-53 |e|  with e = x*c        (M2) floor(e) <= r <= floor(e) + 1   (round-to-nearest never crosses an integer)
+      O1  for all real k in [0, 86401], j in [0, 9999], e = (10000k + j) c:   k <= e  and  e (1 + 2^-53) < k + 1
+      O2  integers f, k, real e:   f <= e < f+1  and  k <= e < k+1   =>  f = k                      (so floor(e) = x div 10000)
+      O3  integers t, k, reals r, e:  k <= r <= k+1,  r <= e (1 + 2^-53) < k+1,  t <= r < t+1  =>  t = k   (so trunc(r) = x div 10000)
+    The composition (instantiating e, f = floor(e), k = x div 10000, j = x mod 10000) is by hand; the statement is additionally
+    run on the plain interpreter for every whole-second boundary +-1 tick and a stride through the range."""
+    from fractions import Fraction
+    from .realmodel import rv
+    cq, u = Fraction(0.0001), Fraction(1, 2 ** 53)
+    kr, jr, e, r = z3.Reals("kr jr e r")
+    f, k, t = z3.Ints("f k t")
+    er = (10000 * kr + jr) * rv(cq)
+    obs = [("O1", z3.And(er >= kr, er * rv(1 + u) < kr + 1), [kr >= 0, kr <= 86401, jr >= 0, jr <= 9999]),
+           ("O2", f == k, [z3.ToReal(f) <= e, e < z3.ToReal(f) + 1, z3.ToReal(k) <= e, e < z3.ToReal(k) + 1]),
+           ("O3", t == k, [z3.ToReal(k) <= r, r <= z3.ToReal(k) + 1, r <= e * rv(1 + u), e * rv(1 + u) < z3.ToReal(k) + 1, z3.ToReal(t) <= r, r < z3.ToReal(t) + 1])]
+    for name, claim, asm in obs:
+        st, m = prove(claim, asm, label="time-truncation-lemma/" + name)
+        if st == "sat":
+            rep.violation({"kind": "time-truncation"}, "truncation lemma step %s fails: %s" % (name, m), {"kind": "trunc", "x": 0})
+            return
+        if st == "unknown":
+            rep.inconc("time truncation lemma %s undecided" % name)
+    n = 0
+    for kk in range(0, 86402):
+        for x in (10000 * kk - 1, 10000 * kk, 10000 * kk + 1):
+            if 0 <= x <= 864010000:
+                n += 1
+                if int(x * 0.0001) != x // 10000:
+                    rep.violation({"kind": "time-truncation"}, "int(%d * 0.0001) = %d, not %d" % (x, int(x * 0.0001), x // 10000), {"kind": "trunc", "x": x})
+                    return
+    for x in range(0, 864010001, 7919):
+        n += 1
+        if int(x * 0.0001) != x // 10000:
+            rep.violation({"kind": "time-truncation"}, "int(%d * 0.0001) = %d, not %d" % (x, int(x * 0.0001), x // 10000), {"kind": "trunc", "x": x})
+            return
+    rep.count("time_truncation_concrete_values", n)
 
 
 def datetime_kernel_checks(rep, H, tier):
@@ -1153,6 +1197,9 @@ def replay(r):
             g["decode_pgn_127250"] = saved
         ok = m is not None and seen == [int.from_bytes(pay, "little")] and (m.source, m.destination, m.priority) == (r["src"], r["dst"], r["prio"])
         return not ok, "payload %s: per-PGN function received %r, message addressing %r" % (pay.hex(), [hex(x) for x in seen], None if m is None else (m.source, m.destination, m.priority))
+    if k == "trunc":
+        x = r["x"]
+        return int(x * 0.0001) != x // 10000, "int(%d * 0.0001) = %d, %d // 10000 = %d" % (x, int(x * 0.0001), x, x // 10000)
     if k == "dtkernel":
         import datetime as _dtm
         import math
